@@ -147,6 +147,14 @@ def run_case(case, acc, wd):
                       f'during write #{t["write"]} the output file held a content that is neither the previous nor the new '
                       f'element of the chain: ' + ('no file' if t['size'] is None else f'{t["size"]} bytes {t["head"]!r}'), case)
     nt, classes = check_history(case, r, acc)
+    al = [a for a in r.after.get('accepted_log', []) if a]
+    if not cut and r.after.get('rc') == 0 and al:
+        # an adoption (TaskGenerator.update / an accepted hierarchical task) that no write followed
+        have = None if r.out_text is None else vspec.full_digest_of_text(r.out_text)
+        if have != al[-1]:
+            acc.violation('final-file-not-last-accepted',
+                          f'{len(al)} inputs were adopted during the run; the file left at exit is not the last one '
+                          f'({len(r.after.get("writes_log", []))} writes)', case)
     if cut:
         classes.append('stopped-at-repeat')
     return nt, classes, r
